@@ -204,25 +204,34 @@ def run_arch(ck, wd, arch, exe, cases, pc, tag, results):
     explained = []          # records the classifier accepts: rejected by the specification AND literal reading of the text
     to_spec = {'heavy': part['heavy'], 'light': part['light']}
     if part['known']:
-        vk = validate_trace(wd, MOD, CFG_LIT, dump('known', part['known']), env=env, min_chunk=12, max_rejects=60)
-        for msg in vk['infra']:
-            ck.note('infrastructure: ' + msg)
-        rej = {id(part['known'][i]) for i, _ in vk['rejected']}
-        n_acc = 0
+        # one classifier run per routine: a routine whose records are ALL explained (rejected by the specification and exactly
+        # the literal reading of the text) is a known-finding candidate; any other routine goes to the specification as a whole
+        groups = {}
         for j in part['known']:
-            if id(j) in rej:
-                to_spec['light'].append(j)          # not the known picture: the specification decides
-            else:
-                explained.append(j); n_acc += 1
-        ck.cov.setdefault('known_classifier', {})[str(arch)] = dict(routed=len(part['known']), explained_and_rejected_by_spec=n_acc)
-        ck.states += vk['states']; ck.transitions += vk['transitions']
+            groups.setdefault((j['e'], j.get('fn', j.get('op')), j.get('op') if j['e'] == 'gx' else 0), []).append(j)
+
+        def classify(kv):
+            (e, fn, op), js = kv
+            return js, validate_trace(wd, MOD, CFG_LIT, dump('known_%s_%s' % (fn, op), js), env=env, nsplit=1, max_rejects=1)
+        n_acc = 0
+        with ThreadPoolExecutor(max_workers=8) as ex:
+            for js, vk in ex.map(classify, list(groups.items())):
+                for msg in vk['infra']:
+                    ck.note('infrastructure: ' + msg)
+                ck.states += vk['states']; ck.transitions += vk['transitions']
+                if vk['accepted'] == vk['total'] == len(js) and not vk['rejected']:
+                    explained += js; n_acc += len(js)
+                else:
+                    to_spec['light'] += js          # not the known picture: the specification decides
+        ck.cov.setdefault('known_classifier', {})[str(arch)] = dict(routed=len(part['known']), routines=len(groups),
+                                                                    explained_and_rejected_by_spec=n_acc)
     tm['classifier_pass'] = round(time.time() - t0, 1); t0 = time.time()
     rejected = []
     with ThreadPoolExecutor(max_workers=2) as ex:
         futs = []
         for name, mc in (('heavy', 2), ('light', 40)):
             if to_spec[name]:
-                futs.append((name, ex.submit(validate_trace, wd, MOD, CFG, dump(name, to_spec[name]), env=env, min_chunk=mc, max_rejects=12)))
+                futs.append((name, ex.submit(validate_trace, wd, MOD, CFG, dump(name, to_spec[name]), env=env, min_chunk=mc, max_rejects=3)))
         for name, f in futs:
             v = f.result()
             ck.add_validation(v, 'device code on the host, __CUDA_ARCH__ %s 700, %s records (%s)' % ('>=' if arch >= 700 else '<', name, tag))
@@ -231,22 +240,28 @@ def run_arch(ck, wd, arch, exe, cases, pc, tag, results):
             rejected += [rec for _, rec in v['rejected']]
             ck.sample_trace(os.path.join(wd, 'tr_%s_%d_%s.ndjson' % (tag, arch, name)), n=2)
     tm['specification_pass'] = round(time.time() - t0, 1); t0 = time.time()
-    # ---- confirmation: exactly the case of a rejected record, alone in a fresh process
-    seen = set()
+    # ---- confirmation: exactly the case of a rejected record, alone in a fresh process (one witness per class of record)
+    seen = {}
     for rec in rejected:
         cls = (rec.get('e'), rec.get('op'), rec.get('fn'), rec.get('variant'), rec.get('via'))
-        if cls in seen or len(seen) >= 10:
-            continue
-        seen.add(cls)
-        how = vlib.confirm_case(wd, MOD, CFG, lambda cp, tp: [exe, cp, tp], write_cases, cases, rec['ci'], env=env, tag='confirm_%d' % arch)
-        if not how:
-            ck.note('rejection not reproduced on re-run (arch %d): %s' % (arch, key_of(arch, rec, False)))
-            continue
+        if cls not in seen and len(seen) < 6:
+            seen[cls] = rec
+
+    def confirm(irec):
+        i, rec = irec
+        how = vlib.confirm_case(wd, MOD, CFG, lambda cp, tp: [exe, cp, tp], write_cases, cases, rec['ci'], env=env,
+                                tag='confirm_%d_r%d' % (arch, i))
         expl = False
-        if rec.get('e') in ('gx', 'c3'):
-            v2 = validate_trace(wd, MOD, CFG_LIT, dump('cls', [rec]), env=env, nsplit=1)
+        if how and rec.get('e') in ('gx', 'c3'):
+            v2 = validate_trace(wd, MOD, CFG_LIT, dump('cls_%d' % i, [rec]), env=env, nsplit=1)
             expl = v2['accepted'] == 1
-        results.append((arch, rec, expl, cases[:rec['ci']] if how == 'history' else [cases[rec['ci'] - 1]]))
+        return rec, how, expl
+    with ThreadPoolExecutor(max_workers=6) as ex:
+        for rec, how, expl in ex.map(confirm, list(enumerate(seen.values()))):
+            if not how:
+                ck.note('rejection not reproduced on re-run (arch %d): %s' % (arch, key_of(arch, rec, False)))
+                continue
+            results.append((arch, rec, expl, cases[:rec['ci']] if how == 'history' else [cases[rec['ci'] - 1]]))
     if len(rejected) > len(seen):
         ck.note('arch %d: %d further rejected records not individually confirmed' % (arch, len(rejected) - len(seen)))
     # one witness per routine of what the classifier explained, confirmed like any other rejection: its case alone in a
@@ -254,7 +269,7 @@ def run_arch(ck, wd, arch, exe, cases, pc, tag, results):
     wit = {}
     for j in explained:
         wit.setdefault((j.get('e'), j.get('fn'), j.get('op')), j)
-    if arch == ARCHS[0] or not wit:
+    if arch == ARCHS[0] or tag == 'replay':
         def conf(kj):
             k, j = kj
             return j, vlib.confirm_case(wd, MOD, CFG, lambda cp, tp: [exe, cp, tp], write_cases, cases, j['ci'], env=env,
